@@ -87,7 +87,11 @@ import sys, json, ast
 from func_adl.ast.ast_hash import calc_ast_hash
 for line in sys.stdin:
     r = json.loads(line)
-    print(json.dumps({"id": r["id"], "h": calc_ast_hash(ast.parse(r["src"]).body[0].value)}))
+    try:
+        h, ok = calc_ast_hash(ast.parse(r["src"]).body[0].value), True
+    except Exception as e:
+        h, ok = "!" + type(e).__name__ + ": " + str(e)[:80], False
+    print(json.dumps({"id": r["id"], "h": h, "ok": ok}))
 """
 
 
@@ -136,8 +140,11 @@ def run(prop, tier):
     sources = {}
 
     def add(node, route, case):
-        table.append({"id": len(table) + 1, "t": codec.enc(node), "h": calc_ast_hash(node), "route": route,
-                      "case": case})
+        try:
+            h, ok = calc_ast_hash(node), True
+        except Exception as e:      # a query that cannot be hashed: judged by TLC (clause Defined), not by the harness
+            h, ok = "!" + type(e).__name__ + ": " + str(e)[:80], False
+        table.append({"id": len(table) + 1, "t": codec.enc(node), "h": h, "ok": ok, "route": route, "case": case})
 
     class DS(EventDataset):
         async def execute_result_async(self, a, title=None):
@@ -240,7 +247,7 @@ def run(prop, tier):
     for line in p.stdout.splitlines():
         o = json.loads(line)
         n1 = ast.parse(sources[o["id"]]).body[0].value
-        table.append({"id": len(table) + 1, "t": codec.enc(n1), "h": o["h"], "route": "other-process",
+        table.append({"id": len(table) + 1, "t": codec.enc(n1), "h": o["h"], "ok": o["ok"], "route": "other-process",
                       "case": o["id"]})
     # wild traces: every calc_ast_hash call the repository's own tests make
     import wild
@@ -272,7 +279,7 @@ def run(prop, tier):
     d = tlcrun.fresh_dir(common.outdir(prop, "val"))
     inf = os.path.join(d, "table.ndjson")
     # tk: canonical text of the term - atomic for TLC (deep record comparison made the set construction quadratic)
-    codec.write_ndjson(inf, [{"id": r["id"], "tk": r["tk"], "h": r["h"]} for r in table])
+    codec.write_ndjson(inf, [{"id": r["id"], "tk": r["tk"], "h": r["h"], "ok": r.get("ok", True)} for r in table])
     cfg = os.path.join(d, "trace.cfg")
     tlcrun.write_cfg(cfg)
     outf = os.path.join(d, "verdict.ndjson")
@@ -284,10 +291,18 @@ def run(prop, tier):
     rep.evaluations = len(table)
     rep.nontrivial = v["structures"]
     rep.extra.update(api_routes_refused=refused[0], families=fams, table_rows=len(table), distinct_structures=v["structures"],
-                     routes=sorted({r["route"] for r in table}), verdict={"stable": v["stable"], "sensitive": v["sensitive"]})
+                     routes=sorted({r["route"] for r in table}), verdict={"stable": v["stable"], "sensitive": v["sensitive"], "defined": v["defined"]})
     for r in table[:4] + table[-2:]:
         rep.sample({"route": r["route"], "query": sources.get(r["case"], ""), "hash": r["h"]})
     # TLC decided; the harness only looks up a witness pair for the replay file
+    if not v["defined"]:
+        bad = [r for r in table if not r.get("ok", True)]
+        if not bad:
+            raise common.MachineryError("TLC says not Defined but no witness found")
+        r = bad[0]
+        rep.reject("defined", "Defined", {"property": prop, "clause": "Defined: calc_ast_hash raised instead of returning a hash",
+                                          "route": r["route"], "raised": r["h"], "source": sources.get(r["case"], ""),
+                                          "term": r["t"], "rows_without_hash": len(bad)})
     if not v["stable"]:
         seen = {}
         for r in table:
